@@ -63,7 +63,7 @@ def wrap_scalar(t, kind):
 class SArr(Sym):
     """view = list over STORAGE axes of ('fix', term) | ('rng', offset_term); `shape` lists the lengths
     of the 'rng' axes in order; `perm` optionally permutes the view axes (transpose)."""
-    __slots__ = ('cell', 'view', 'shape', 'perm', '_sel', 'name')
+    __slots__ = ('cell', 'view', 'shape', 'perm', '_sel', 'name', 'sel_inst')
 
     def __init__(self, cell, view=None, shape=None, perm=None, name=None):
         self.cell = cell
@@ -140,7 +140,7 @@ class SArr(Sym):
             if tag == 'fix':
                 out.append(v)
             else:
-                out.append(v + idx[k])
+                out.append(idx[k] if conc(v) == 0 else v + idx[k])
                 k += 1
         return out
 
@@ -289,6 +289,12 @@ class SArr(Sym):
                       z3.Implies(forall_range(0, n, lambda i: m.at(i), 'i'), k == n),
                       z3.Implies(forall_range(0, n, lambda i: z3.Not(m.at(i)), 'i'), k == 0))
             self._sel = (k, sel, rank, m)
+            # instance generators of the quantified axioms above (explicit instantiation by contracts; each is an
+            # instance of an assumed fact, so assuming it adds nothing new)
+            self.sel_inst = dict(
+                true_has_rank=lambda i: z3.Implies(z3.And(0 <= i, i < n, m.at(i)), z3.And(0 <= rank(i), rank(i) < k, sel(rank(i)) == i)),
+                sel_is_true=lambda j: z3.Implies(z3.And(0 <= j, j < k), z3.And(0 <= sel(j), sel(j) < n, m.at(sel(j)), rank(sel(j)) == j)),
+                sel_increasing=lambda i, j: z3.Implies(z3.And(0 <= i, i < j, j < k), sel(i) < sel(j)))
         return self._sel
 
     def _mask_select(self, mask):
@@ -409,8 +415,13 @@ class SArr(Sym):
     def __rsub__(self, o): return self._ew(o, lambda a, b: a - b, rev=True)
     def __mul__(self, o): return self._ew(o, lambda a, b: a * b)
     def __rmul__(self, o): return self._ew(o, lambda a, b: a * b, rev=True)
-    def __truediv__(self, o): return self._ew(o, _rdiv, 'real')
-    def __rtruediv__(self, o): return self._ew(o, _rdiv, 'real', rev=True)
+    def __truediv__(self, o):
+        _div_obligation(o)
+        return self._ew(o, _rdiv, 'real')
+
+    def __rtruediv__(self, o):
+        _div_obligation(self)
+        return self._ew(o, _rdiv, 'real', rev=True)
     def __neg__(self): return ew1(self, lambda a: -a)
     def __pow__(self, p):
         if isinstance(p, int) and 0 <= p <= 4:
@@ -502,6 +513,37 @@ class SArr(Sym):
 
     def astype(self, dt):
         return self.snapshot()
+
+    def dot(self, o):
+        from . import npspec
+        return npspec.dot(self, o)
+
+    def flatten(self):
+        if self.ndim == 1:
+            return self.snapshot()
+        from . import npspec
+        return npspec.reshape(self, (-1,))
+
+
+def _div_obligation(d):
+    vc = cur()
+    if not vc.options.get('div_check', True):
+        return
+    if isinstance(d, SArr):
+        sn = d.snapshot()
+        if sn.ndim == 0:
+            vc.oblige('call-pre[division by non-zero]', sn.at() != 0)
+        elif sn.ndim == 1:
+            vc.oblige('call-pre[elementwise division by non-zero]', forall_range(0, sn.shape[0], lambda i: sn.at(i) != 0, 'i'))
+        elif sn.ndim == 2:
+            vc.oblige('call-pre[elementwise division by non-zero]',
+                      forall_range(0, sn.shape[0], lambda i: forall_range(0, sn.shape[1], lambda j: sn.at(i, j) != 0, 'j'), 'i'))
+        else:
+            raise OutOfSubset('division by rank-%d array' % sn.ndim)
+    else:
+        if isinstance(d, SOpt):
+            d = d.get('divisor')
+        vc.oblige('call-pre[division by non-zero]', lift(d).t != 0)
 
 
 def _rdiv(a, b):
